@@ -77,7 +77,7 @@ def raise_problems(fn, exc):
     return probs
 
 
-def rule_obligations(module, cls, exc):
+def rule_obligations(module, cls, exc, kinds=('frame', 'raises-only')):
     prog = Program()
     path, tree, src = prog.load(module)
     cnode = [n for n in tree.body if isinstance(n, ast.ClassDef) and n.name == cls][0]
@@ -90,6 +90,8 @@ def rule_obligations(module, cls, exc):
         qual = '%s.%s.%s' % (module, cls, fn.name)
         sha = hashlib.sha1(ast.get_source_segment(src, fn).encode()).hexdigest()[:12]
         for kind, probs in (('frame[loader-state]', frame_problems(fn)), ('raises-only[%s]' % exc, raise_problems(fn, exc))):
+            if kind.split('[')[0] not in kinds:
+                continue
             out.append(dict(name='%s::%s' % (qual, kind), function=qual, kind='rule-' + kind.split('[')[0], backend='finite',
                             status='discharged' if not probs else 'unknown' if all(x.startswith('?') for x in probs) else 'violated', time_s=time.time() - t0, clause=kind,
                             clause_text='; '.join(probs) if probs else 'the rule function neither writes nor leaks loader state' if kind.startswith('frame')
@@ -100,3 +102,8 @@ def rule_obligations(module, cls, exc):
 
 def sql_rule_frames(tier):
     return rule_obligations('xtuml.load', 'ModelLoader', 'ParsingException')
+
+
+def oal_rule_raises(tier):
+    """C13: the only exception a rule function of the OAL grammar raises by itself is the documented ParseException"""
+    return rule_obligations('bridgepoint.oal', 'OALParser', 'ParseException', kinds=('raises-only',))
